@@ -217,11 +217,16 @@ def dumps(o, **kw):
     return json.dumps(o, default=_json_default, **kw)
 
 
+def _outdir():
+    # evidence/ and replays/ live in /verif; tools that run the checks against modified scratch trees redirect them
+    return os.environ.get('VERIF_OUT') or env.VERIF
+
+
 def write_replay(prop, case, viol):
-    os.makedirs(os.path.join(env.VERIF, 'replays'), exist_ok=True)
+    os.makedirs(os.path.join(_outdir(), 'replays'), exist_ok=True)
     body = {'property': prop, 'case': case, 'violation': viol}
     h = hashlib.sha1(dumps({'case': case, 'sig': viol.get('sig')}, sort_keys=True).encode()).hexdigest()[:12]
-    path = os.path.join(env.VERIF, 'replays', '%s-%s.json' % (prop, h))
+    path = os.path.join(_outdir(), 'replays', '%s-%s.json' % (prop, h))
     with open(path, 'w') as f:
         f.write(dumps(body, indent=1, sort_keys=True))
     return path
@@ -275,6 +280,9 @@ def main(modname, argv=None):
     rnd.shuffle(cases)
     cases.sort(key=lambda c: -c.get('cost', 0))
     timeout = getattr(mod, 'TIMEOUT_S', 600)
+    if os.environ.get('VERIF_TIMEOUT_CAP_S'):      # development aid (tools/mutate.py): never used by registered commands
+        timeout = min(timeout, float(os.environ['VERIF_TIMEOUT_CAP_S']))
+    failfast = bool(os.environ.get('VERIF_FAILFAST'))      # development aid: stop at the first violation
     deadline = t0 + args.deadline if args.deadline else None
 
     pool = Pool(modname, args.workers, timeout)
@@ -286,7 +294,12 @@ def main(modname, argv=None):
     viols = []          # (case idx, violation dict)
     results = {}
     ndone = 0
-    for idx, kind, payload in pool.run(cases, deadline):
+    _known_sigs = set(k['signature'] for k in load_known() if k.get('property') == prop and k.get('status', 'open') == 'open')
+    gen = pool.run(cases, deadline)
+    for idx, kind, payload in gen:
+        if failfast and any(v['sig'] not in _known_sigs for _, v in viols):
+            gen.close()
+            break
         ndone += 1
         if kind == 'ok':
             res = payload
@@ -404,8 +417,8 @@ def main(modname, argv=None):
         'wall_s': round(time.time() - t0, 2),
         'violations': len(reported),
     }
-    os.makedirs(os.path.join(env.VERIF, 'evidence'), exist_ok=True)
-    with open(os.path.join(env.VERIF, 'evidence', prop + '.json'), 'w') as f:
+    os.makedirs(os.path.join(_outdir(), 'evidence'), exist_ok=True)
+    with open(os.path.join(_outdir(), 'evidence', prop + '.json'), 'w') as f:
         f.write(dumps(ev, indent=1))
     print('%s %s: %d cases, %d evaluations, %d non-trivial, %d known-finding hit(s), %d new violation signature(s), %.1f s%s'
           % (prop, args.tier, ndone, evals, nontriv, sum(n for _, n in seen_known.values()), len(reported),
